@@ -14,12 +14,13 @@ func init() {
 	register(&Rule{
 		ID:    "C17",
 		Title: "Accepted blocks carry a BFT quorum of signatures",
-		Pkgs:  []string{"process/headerCheck"},
+		Pkgs:  []string{"process/headerCheck", "fallback", "crypto/signing/multisig"},
 		Explain: "Decides structural conditions of the quorum check. (S1) every success exit of HeaderSigVerifier.VerifySignature lies behind: a non-empty bitmap test, the leader-bit test (bitmap[0]&1), a checked " +
 			"verifyConsensusSize for the consensus group of the header, and the multi-signature Verify of a verifier created for that same group (tail-returned). (S2) verifyConsensusSize returns nil only when " +
 			"the bitmap length equals the expected size derived from the group size and the counted signers reach a threshold derived from core.GetPBFTThreshold / GetPBFTFallbackThreshold of the group size. " +
 			"(S3, member-bounded count) the value compared with the threshold counts only bits that designate a member: accepted idioms are a per-member loop bounded by the group size, or a population count of " +
 			"masked bytes; a population count over raw bitmap bytes also counts the padding bits of the last byte, which the multi-signature verifier ignores, so fewer real signers than the threshold are accepted. " +
+			"(S3) the lower fallback threshold is earned only by a metachain start-of-epoch header whose previous header was found, and the round distance is not an unguarded unsigned subtraction. (S4) blsMultiSigner.Verify tests every member index once (counter advanced by exactly one, no early exit) and adds the member's key on every pass where the bitmap test succeeded, so the keys verified are the members the quorum test counted. " +
 			"Not decided (value-level): distinctness of group members, the BLS aggregation itself.",
 		Run: runC17,
 	})
@@ -27,6 +28,8 @@ func init() {
 
 func runC17(c *core.Ctx) {
 	const pkg = "process/headerCheck"
+	c17Fallback(c)
+	c17MultisigCoversBitmap(c)
 	vs := anchorM(c, pkg, "HeaderSigVerifier", "VerifySignature")
 	vcs := anchorM(c, pkg, "HeaderSigVerifier", "verifyConsensusSize")
 	if vs == nil || vcs == nil {
@@ -250,4 +253,144 @@ func accumulationTerms(v ssa.Value) []accTerm {
 	}
 	visit(v)
 	return out
+}
+
+// c17Fallback: the lower (fallback) threshold is earned only by a start-of-epoch metablock whose
+// previous header is known and old enough; the round distance must not wrap.
+func c17Fallback(c *core.Ctx) {
+	fn := anchorM(c, "fallback", "fallbackHeaderValidator", "ShouldApplyFallbackValidation")
+	if fn == nil {
+		return
+	}
+	c.Analysed(fname(fn))
+	n := 0
+	for _, r := range core.Returns(fn) {
+		v := core.RetOperand(r, 0)
+		if b, isC := core.ConstBool(v); isC && !b {
+			continue
+		}
+		n++
+		meta, soe, prev := false, false, false
+		for _, cd := range core.CondsAt(r.Block()) {
+			for x := range core.BackwardReachPure(cd.V) {
+				call, ok := x.(*ssa.Call)
+				if !ok {
+					continue
+				}
+				switch {
+				case call.Call.IsInvoke() && call.Call.Method.Name() == "GetShardID":
+					f := core.FactOf(cd)
+					if f.Op == "==" {
+						meta = true
+					}
+				case call.Call.IsInvoke() && call.Call.Method.Name() == "IsStartOfEpochBlock":
+					if cd.Taken == !isNegated(cd.V) {
+						soe = true
+					}
+				case call.Call.StaticCallee() != nil && call.Call.StaticCallee().Name() == "GetMetaHeader":
+					if core.KnownNil(core.ErrResult(call), []core.Cond{cd}) {
+						prev = true
+					}
+				}
+			}
+		}
+		c.Check(meta && soe && prev, "C17/fallback-threshold-only-when-earned", fmt.Sprintf("ShouldApplyFallbackValidation/true-return#%d", n), r.Pos(),
+			"`true` only for a metachain start-of-epoch header whose previous header was found",
+			fmt.Sprintf("`true` can be returned without all of: shard == metachain (%v), IsStartOfEpochBlock (%v), previous header found (%v): ordinary blocks get the lower signature threshold", meta, soe, prev))
+	}
+	bad := ""
+	subs := core.UnsignedSubs(fn)
+	for _, s := range subs {
+		if !s.Guarded {
+			bad = fmt.Sprintf("%s at %s: %s", core.ExprKey(s.Op), c.P.Pos(s.Op.Pos()), s.Why)
+		}
+	}
+	c.Check(bad == "", "C17/fallback-threshold-only-when-earned", "ShouldApplyFallbackValidation/round-distance", fn.Pos(),
+		fmt.Sprintf("the round distance is not an unguarded unsigned subtraction (%d unsigned subtraction(s))", len(subs)),
+		"the round distance is an unsigned subtraction that wraps when the header's round is below its predecessor's: the header counts as 'too old' and gets the lower threshold: "+bad)
+	c.Floor("C17/fallback-threshold-only-when-earned", 2)
+}
+
+func isNegated(v ssa.Value) bool {
+	u, ok := v.(*ssa.UnOp)
+	return ok && u.Op == token.NOT
+}
+
+// c17MultisigCoversBitmap: the key set the aggregated signature is verified against is exactly
+// the members whose bit is set: the loop over the members visits every index (advance by one,
+// no early exit) and adds the member's key on every pass where the bitmap test succeeded.
+func c17MultisigCoversBitmap(c *core.Ctx) {
+	const pkg = "crypto/signing/multisig"
+	fn := anchorM(c, pkg, "blsMultiSigner", "Verify")
+	if fn == nil {
+		return
+	}
+	c.Analysed(fname(fn))
+	var loop *core.Loop
+	var test *ssa.Call
+	for _, in := range core.CallsIn(fn, func(in ssa.Instruction, cc *ssa.CallCommon) bool {
+		return cc.StaticCallee() != nil && cc.StaticCallee().Name() == "isIndexInBitmap"
+	}) {
+		test = in.(*ssa.Call)
+		loop = core.InnermostLoop(fn, in.Block())
+	}
+	if test == nil || loop == nil {
+		c.Undecided("C17/verified-keys-are-the-bitmap-members", "blsMultiSigner.Verify", fn.Pos(), "no loop testing member indexes against the bitmap")
+		return
+	}
+	hdr := loop.Header
+	// induction variable: the header phi the tested index derives from
+	var ind *ssa.Phi
+	for x := range core.BackwardReachPure(test.Call.Args[1]) {
+		if ph, ok := x.(*ssa.Phi); ok && ph.Block() == hdr {
+			ind = ph
+		}
+	}
+	okStep, why := ind != nil, "the tested index does not derive from the loop counter"
+	if ind != nil {
+		// range loops keep the counter as phi(-1, phi+1) and use phi+1; classic loops phi(0, phi+1)
+		for i, p := range hdr.Preds {
+			if !loop.Body[p] {
+				continue
+			}
+			e := ind.Edges[i]
+			add, isAdd := e.(*ssa.BinOp)
+			if isAdd && add.Op == token.ADD && add.X == ssa.Value(ind) {
+				if n, isC := core.ConstInt(add.Y); isC && n == 1 {
+					continue
+				}
+			}
+			okStep, why = false, "the loop counter is advanced by something other than exactly one on a pass ("+core.ExprKey(e)+")"
+		}
+	}
+	if okStep {
+		if w := loopComplete(c, loop, nil); w != "" {
+			okStep, why = false, w
+		}
+	}
+	c.Check(okStep, "C17/verified-keys-are-the-bitmap-members", "blsMultiSigner.Verify/every-member-visited", test.Pos(),
+		"the loop tests every member index once (counter advanced by one, no early exit)",
+		why+": a member whose bit is set (and is counted by the quorum test) does not contribute its key to the verification")
+	// every pass on which the bitmap test succeeded appends a key
+	edges, _, handled := core.ErrNilEdges(test)
+	isAppend := func(in ssa.Instruction) bool {
+		call, ok := in.(*ssa.Call)
+		if !ok || !loop.Body[in.Block()] {
+			return false
+		}
+		b, ok := call.Call.Value.(*ssa.Builtin)
+		return ok && b.Name() == "append"
+	}
+	okApp, whyApp := handled && len(edges) > 0, "the result of the bitmap test is not branched on"
+	for e := range edges {
+		from := fn.Blocks[e[0]].Succs[e[1]]
+		esc, path := core.PathQ{Fn: fn, FromBlk: from, Via: isAppend,
+			Target: func(in ssa.Instruction, _ *ssa.BasicBlock) bool { return in == hdr.Instrs[0] }}.Escape()
+		if esc != nil {
+			okApp, whyApp = false, "a pass on which the member's bit is set reaches the next pass without adding the member's key ("+c.P.PathString(path)+")"
+		}
+	}
+	c.Check(okApp, "C17/verified-keys-are-the-bitmap-members", "blsMultiSigner.Verify/member-key-added", test.Pos(),
+		"every pass on which isIndexInBitmap succeeded appends to the key list", whyApp)
+	c.Floor("C17/verified-keys-are-the-bitmap-members", 2)
 }
